@@ -75,10 +75,13 @@ pub fn run_with_interpreter(mut it: Interpreter<f32>) {
         };
         match readline {
             Ok(line) => {
-                if line.is_empty() {
+                // a line read from a pipe still carries its terminator, one typed at a
+                // terminal does not; the separator between pending lines is added below
+                let line = line.trim_end_matches(|c| c == '\n' || c == '\r');
+                if line.is_empty() && source.is_empty() {
                     continue;
                 }
-                source.push_str(line.as_str());
+                source.push_str(line);
                 if check_bracket_closed(source.chars()) {
                     match it.eval(source.chars()) {
                         Ok(opt) => {
